@@ -6,6 +6,7 @@ From Coq Require Import List Bool Permutation Sorted String.
 From PB Require Import Base.PBytes Gen.MapRangeSites CodeGen.MapRangeModel CodeGen.MapRangeP
   CodeGen.EmitModel CodeGen.EmitP.
 Import ListNotations.
+Definition bs (s : string) : list byte := list_byte_of_string s.
 
 (* Every safe loop shape computes the same result for every iteration order
    (every permutation of the map's key list). *)
